@@ -253,6 +253,7 @@ package age
 //@   modifies nothing
 
 //@ func ParseX25519Recipient(s) (r, err)
+//@   ensures#accepts (lasterr("bech32.Decode",1) == nil && lastret("bech32.Decode",1,0) == "age" && len(lastret("bech32.Decode",1,1)) == 32) ==> err == nil   [C05 C09]
 //@   call bech32.Decode#1 requires arg0 == s                                                                            [C09]
 //@   ensures#canon err == nil ==> r != nil && len(r.theirPublicKey) == 32 && hasprefix(s, "age") && at(s, 3) == 49 && (forall j in 0..len(s) :: 33 <= at(s, j) && at(s, j) <= 126) && (forall j in 4..len(s) :: at(s, j) != 49)   [C09 C17]
 //@   ensures#nil err != nil ==> r == nil                                                                                [C09 C14]
@@ -273,6 +274,7 @@ package age
 //@   modifies nothing
 
 //@ func ParseX25519Identity(s) (i, err)
+//@   ensures#accepts (lasterr("bech32.Decode",1) == nil && lastret("bech32.Decode",1,0) == "AGE-SECRET-KEY-" && len(lastret("bech32.Decode",1,1)) == 32) ==> err == nil   [C05 C09]
 //@   call bech32.Decode#1 requires arg0 == s                                                                            [C09]
 //@   call fmt.Errorf#1 requires len(arg1) == 1 && arg1[0] == lasterr("bech32.Decode",1)                     [C18]
 //@   call fmt.Errorf#2 requires len(arg1) == 1 && unboxstr(arg1[0]) == lastret("bech32.Decode",1,0) && lasterr("bech32.Decode",1) == nil   [C18]
